@@ -156,6 +156,19 @@ CHECKS = {
                      "runs, identical sequence of TCP messages at the servers, every TCP frame a server received decoded as a "
                      "whole well-formed query, and a truncated UDP reply was followed by TCP unless IGNTC.",
                 note="Deterministic servers with fixed delays in both runs; how the application polls is not varied."),
+    "C17": dict(engine="simnet", category="exploration", design_ref="DESIGN.md §4 C17",
+                technique="runtime monitoring in a deterministic simulator: online trace specification (RFC 7873 client model "
+                          "per server) over the COOKIE option of every query seen by the virtual servers and over which "
+                          "responses were read/delivered, virtual time across the 120 s / 300 s / 1 day timers",
+                text="Held on the seeded histories explored (4-25 queries, gaps up to a day, 1-2 servers whose behaviour changes "
+                     "between valid / rotating / none / wrong client part / client-only / 40-octet / bad-cookie once / always, "
+                     "FORMERR with and without OPT, truncation, silence, source-address changes, whole-second clock): no cookie "
+                     "over TCP; cookie present unless the server answered without one; client part changed only on address "
+                     "change, after a day, after the regression period or after giving up; server part = latest valid one; "
+                     "cookie-less/invalid replies of a proven server neither delivered nor acted on within 120 s and the "
+                     "client started over by then; bad-cookie caused a resend without consuming a try, TCP after three.",
+                note="The unsupported period is accepted anywhere in [120 s, 300 s]; request names are unique per case so a "
+                     "second id for one question is classified as a server probe."),
     "C19": dict(engine="dsmodel", category="exploration", design_ref="DESIGN.md §4 C19",
                 technique="model-based runtime monitoring: seeded operation sequences on the real containers, "
                           "step-wise comparison with reference models, under ASan+UBSan",
